@@ -27,7 +27,10 @@ Bombs    == {"laughs_3x4", "laughs_10x6", "laughs_10x9", "quadratic_200k", "nest
 \* nothing expanded, nothing escapes, bounded time and memory (refused OR harmless)
 BombsMore == {"laughs_2x12", "laughs_5x5", "laughs_5x8", "laughs_20x3", "laughs_20x5", "laughs_40x4", "quadratic_20k", "quadratic_1000k",
               "nest_200", "nest_255", "nest_256", "nest_257", "nest_1000", "nest_20000", "attrs_1000", "attrs_200000", "entity_depth_200"}
-Kinds    == External \cup Internal \cup Bombs
+\* SOAP multi-reference encoding as an amplifier: a chain of id'd elements each referring TWICE to the next one; resolving the
+\* references must not hand user code a tree that grows with 2^depth (the references of one target share it, they are not copies)
+HrefBombs == {"href_fanout_2x14"}
+Kinds    == External \cup Internal \cup Bombs \cup HrefBombs
 KindsMore == Kinds \cup BombsMore
 \* would the attack get through with these parser settings?
 Resolves(s, k) == CASE k \in {"ext_general_file"} -> s.resolve_entities
@@ -66,15 +69,20 @@ Positions  == {"text_unicode", "text_integer", "text_nested", "text_item", "attr
 Protocols  == {"xml", "soap11", "soap12"}
 Transports == {"wsgi", "base"}
 \* how the request is framed: plain; transport charset + encoding declaration; as the root part of a multipart/related body
+\* the validator the endpoint was configured with: none, or schema validation by lxml (the parser is the same: validation happens
+\* AFTER parsing and must not change what the parser may load)
+Validators == {"none", "lxml"}
 Framings   == {"plain", "charset_decl", "multipart", "ctrl_char"}     \* ctrl_char: a C0 control character (never legal in XML 1.0) in front of the payload
 Applies(a) == /\ (a.framing = "multipart" => a.transport = "wsgi" /\ a.prot # "xml")
               /\ (a.kind \in Bombs \ {"attrs_50000"} => a.pos \in {"text_unicode", "text_nested"})       \* one bomb is enough per document
               /\ (a.kind = "attrs_50000" => a.pos = "attr_value")
-              /\ (a.kind \in {"ext_dtd_file", "ext_dtd_http", "ext_param_file", "ext_param_http"} => a.pos = "text_unicode")   \* these live in the prolog
-Attacks == {a \in [kind : Kinds, pos : Positions, prot : Protocols, transport : Transports, framing : Framings] : Applies(a)}
+              /\ (a.kind \in {"ext_dtd_file", "ext_dtd_http", "ext_param_file", "ext_param_http"} => a.pos \in {"text_unicode", "attr_value"})   \* these live in the prolog (what they declare may show in a text or in an attribute)
+              /\ (a.kind \in HrefBombs => a.prot # "xml" /\ a.pos = "text_nested" /\ a.framing = "plain")
+              /\ (a.validator = "lxml" => a.kind \in External \cup Internal /\ a.framing = "plain")
+Attacks == {a \in [kind : Kinds, pos : Positions, prot : Protocols, transport : Transports, framing : Framings, validator : Validators] : Applies(a)}
 AppliesMore(a) == /\ (a.framing = "multipart" => a.transport = "wsgi" /\ a.prot # "xml")
                   /\ (IF a.kind \in {"attrs_1000", "attrs_200000"} THEN a.pos = "attr_value" ELSE a.pos \in {"text_unicode", "text_nested"})
-AttacksMore == Attacks \cup {a \in [kind : BombsMore, pos : Positions, prot : Protocols, transport : Transports, framing : Framings] : AppliesMore(a)}
+AttacksMore == Attacks \cup {a \in [kind : BombsMore, pos : Positions, prot : Protocols, transport : Transports, framing : Framings, validator : {"none"}] : AppliesMore(a)}
 
 \* what the driver observes for one attack against a DEFAULT-configured endpoint:
 \*   [called, fault, client, escape, canary (its content seen by user code or in the response), expanded (an internal entity's
@@ -88,12 +96,14 @@ Safe(a, o) ==
   /\ (a.kind \in Refusable => ~o.called /\ o.fault /\ o.client)
   /\ (a.kind \in Bombs \cup BombsMore => ~o.expanded)
   /\ (a.framing = "ctrl_char" => ~o.called /\ o.fault /\ o.client)      \* an ill-formed document is never repaired and served
+  /\ (a.kind \in HrefBombs => o.nodes <= 4 * o.reqnodes)      \* (nodes: elements of the request as user code gets it; reqnodes: as sent)
   /\ o.seconds10 <= 50 /\ o.mb <= 300
 Fails(a, o) == (IF o.canary THEN {"CanaryLeaked"} ELSE {}) \cup (IF o.file_opened THEN {"FileOpened"} ELSE {})
                \cup (IF o.net_contact THEN {"NetworkContacted"} ELSE {}) \cup (IF o.escape THEN {"Escape"} ELSE {})
                \cup (IF o.expanded /\ (a.kind \in Bombs \cup BombsMore \/ (a.kind \in Internal /\ a.pos # "attr_value")) THEN {"EntityExpanded"} ELSE {})
                \cup (IF a.kind \in Refusable /\ ~(~o.called /\ o.fault /\ o.client) THEN {"BombNotRefused"} ELSE {})
                \cup (IF o.seconds10 > 50 \/ o.mb > 300 THEN {"Unbounded"} ELSE {})
+               \cup (IF a.kind \in HrefBombs /\ o.nodes > 4 * o.reqnodes THEN {"ReferencesAmplified"} ELSE {})
                \cup (IF a.framing = "ctrl_char" /\ ~(~o.called /\ o.fault /\ o.client) THEN {"IllFormedServed"} ELSE {})
 ASSUME DefaultsAreSafe /\ RelaxedIsNot
 =============================================================================
